@@ -116,7 +116,7 @@ Definition signature_of (legacy : N) (ciphers : list N) (parsed : list (N * ext_
   let version :=
     match list_max (filter_grease_values (e_versions st)) with
     | Some v => tls_version_from_code v
-    | None => determine_tls_version legacy (e_extensions st)
+    | None => determine_tls_version legacy []      (* since 53df476: `&[]`, no "extension 43 present => 1.3" *)
     end in
   {| s_version := version;
      s_cipher_suites := filter_grease_values ciphers;
